@@ -1367,4 +1367,18 @@ def scenarios(tick=0.125):
             _fr("f1", enacts=[["rec", 939], ["bid", "stop", ["all"], None]])]},
         {"name": "s1", "sched": "slave", "order": "front", "period": 0.0, "first": "x", "frames": [
             _fr("x", reacts=[["inc", 0, 1]])]}]})))
+    # S29: one original auxiliary used as conditional auxiliary by frames of TWO framers: while it runs for the
+    # first, the second leaves it alone (does not run, complete or deactivate it); the first framer's suspended
+    # frames resume when it completes
+    out.append(("shared-conditional-aux-left-to-its-owner", _tagged({"tick": tick, "nvars": 1, "framers": [
+        {"name": "m0", "sched": "active", "order": "front", "period": 0.0, "first": "g", "frames": [
+            _fr("f0", preacts=[["aux", [["var", 0, ">=", 0]], "a1"], ["go", [["recurred", ">=", 9]], "fin"]]),
+            _fr("g", "f0", reacts=[["inc", 0, 1]]),
+            _fr("fin", enacts=[["rec", 940], ["bid", "stop", ["all"], None]])]},
+        {"name": "m1", "sched": "active", "order": "back", "period": 0.0, "first": "h", "frames": [
+            _fr("f0", preacts=[["aux", [["var", 0, ">=", 0]], "a1"]]),
+            _fr("h", "f0")]},
+        {"name": "a1", "sched": "aux", "order": "mid", "period": 0.0, "first": "x", "frames": [
+            _fr("x", preacts=[["go", [["recurred", ">=", 2]], "y"]]),
+            _fr("y", enacts=[["done", ["me"]]])]}]})))
     return out
